@@ -171,6 +171,7 @@ pub fn run_script(scn: &Scenario, extra: &[bool], level: Level) -> Trace {
     let mut committed: BTreeMap<(usize, Hash), (u32, bool)> = BTreeMap::new();
     let mut epoch = 0u32;
     let mut in_segment = false;
+    let mut seen_in_segment: BTreeSet<usize> = BTreeSet::new();
     let ticketed_by_id: BTreeMap<Hash, bool> = scn
         .intents
         .iter()
@@ -202,10 +203,15 @@ pub fn run_script(scn: &Scenario, extra: &[bool], level: Level) -> Trace {
                 t.known_at_segment.push(known(&w, &committed, epoch));
             }
             in_segment = false;
+            seen_in_segment.clear();
         }
         match ev {
             Ev::Submit(i) => {
-                let obs = w.submit(&scn.intents[*i]);
+                // a repeat inside one submission segment, or a retry the variant generator
+                // sprinkled in, may come back through plain `ingest` (every other one does)
+                let is_extra = extra.get(ix).copied().unwrap_or(false);
+                let repeat = is_extra || !seen_in_segment.insert(*i);
+                let obs = w.submit_routed(&scn.intents[*i], repeat && ix % 2 == 0);
                 t.submits
                     .push((ix, *i, extra.get(ix).copied().unwrap_or(false), obs));
             }
@@ -278,12 +284,16 @@ pub fn run_script(scn: &Scenario, extra: &[bool], level: Level) -> Trace {
                     for r in records {
                         if let Some(h) = w.head_index(&r.head_key) {
                             for id in &pre.preview[h] {
-                                let ticketed = ticketed_by_id.get(id).copied().unwrap_or(false);
-                                if let Some((e0, _)) = committed.get(&(h, *id)) {
+                                // route through which the copy committed NOW entered the inbox (a retry
+                                // of a ticketed intent may have come through plain `ingest`); a re-commit is
+                                // classified by the route of the EARLIER commit: only a ticketed commit leaves
+                                // the receipt correlation from which a restart rebuilds the dedupe ledger
+                                let ticketed = w.accepted_route.get(id).copied().unwrap_or_else(|| ticketed_by_id.get(id).copied().unwrap_or(false));
+                                if let Some((e0, earlier_ticketed)) = committed.get(&(h, *id)) {
                                     t.commit_log_dups.push(format!(
                                         "{}:{}",
                                         if *e0 == epoch { "same-lifetime" } else { "after-restart" },
-                                        if ticketed { "ticketed" } else { "plain" }
+                                        if *earlier_ticketed { "ticketed" } else { "plain" }
                                     ));
                                 }
                                 committed.insert((h, *id), (epoch, ticketed));
